@@ -823,6 +823,8 @@ def _nontrivial_signs(inp):
 def run(tier, seed):
     thorough = tier == "thorough"
     rng = np.random.default_rng([seed, 7])
+    _g()  # import graphiq once in the parent so that the forked workers inherit it
+    import graphiq.backends.stabilizer.state  # noqa: F401
     assert R.selftest(seed, trials=10), "harness: refsem.tabref selftest failed"
     t1 = _tabs(1)
     t2 = _tabs(2)
@@ -831,9 +833,9 @@ def run(tier, seed):
     sub = lambda k: t1 + (t2 if thorough else t2[(seed % k)::k])  # noqa: E731  deterministic subsample for the quick tier
 
     S.map("gates.clifford_tableau", every, nontrivial=_nontrivial_signs)
-    S.map("gates.stabilizer_tableau", sub(3), nontrivial=_nontrivial_signs)
+    S.map("gates.stabilizer_tableau", sub(4), nontrivial=_nontrivial_signs)
     S.map("z_measurement_gate.outcome_state_flag", every, nontrivial=_nontrivial_signs)
-    S.map("reset.xyz", sub(2), nontrivial=_nontrivial_signs)
+    S.map("reset.xyz", sub(4), nontrivial=_nontrivial_signs)
     S.map("swap_gate.semantics", every, nontrivial=_nontrivial_signs)
     S.map("insert_qubit.every_position", every, nontrivial=_nontrivial_signs)
     S.map("CliffordTableau.construct_copy_to_stabilizer", sub(4), nontrivial=_nontrivial_signs)
